@@ -5,4 +5,4 @@ From Annot Require Import Model.
 Extraction Language OCaml.
 Extraction "annot_model.ml"
   backend_checks build_W sigs_of ctypes cwt_prec cwt_kind cwt_const ok_prec ok_kind ok_const mem_consistent hyp_proc
-  check_proc env_of writes.
+  check_proc env_of writes decl_window_for_dense.
